@@ -156,6 +156,9 @@ def bounds_tree_tie(chk, tier, r):
         sb = np.asarray(rt._sorted_bounds)
         if not keys:
             continue
+        if np.isnan(sb).any():
+            chk.violation("rtree/nan-row-kept-in-the-tree/bounds-tree", dict(api="HilbertRtree", d=d, page_size=ps, rows=rows, sorted_bounds=str(sb.tolist())[:300]), size=n)
+            continue
         srt = "[ " + " ".join("[ %d %s ]" % (kk, " ".join(str(int(v)) for v in sb[i])) for i, kk in enumerate(keys)) + " ]"
         outs = drive([f"btree {d} {ps} {srt}", f"btreec {d} {ps} {srt}"])
         model, coded = untok(outs[0]), untok(outs[1])
